@@ -228,3 +228,14 @@ claim("C31", "per-dimension symbolic reading of the index maps and level recurre
       "and FlatGridAtLevel converts flat->index, delegates and converts back with level shift +1 / -1 / 0. HEALPix and logarithmic "
       "grids, multi-grids, neighbourhood wrapping details, the mixed-radix flat index arithmetic and out-of-range handling are not decided.",
       TRUST + " sympy 1.14 (offline wheelhouse) as algebraic normaliser.", "DESIGN.md section 9.8")
+
+claim("C34", "structural/term rules: role-based reading of the Lanczos step (state tuple in, state tuple out), term shape of the quadrature formulas, linear normal form (exact rationals) of the ELBO assembly and sibling comparison of the two implementations",
+      "Decides only the structural clause: the Lanczos step is the three-term recurrence (alpha_j = <v_j, A v_j>, w - alpha_j v_j - "
+      "beta_(j-1) v_(j-1), beta_j = ||w||, v_(j+1) = w/beta_j, values stored at position j, vectors shifted), quadratures are "
+      "sum (first eigenvector component)^2 f(theta) of the symmetric tridiagonal with the Gauss-Radau last-entry formula, the trace "
+      "estimate is dimension * mean, and both estimate_evidence_lower_bound implementations assemble "
+      "tr_log_lat_cov + metric_size/2 - energy(sample) - prior term with tr_log_lat_cov = -1/2 sum log(eigenvalues), the analytic "
+      "prior term (trace_inv_total + |mean|^2)/2 paired with the likelihood-only energy, the documented lower error and mean +/- std "
+      "bounds, identically in both. Exactness in the limit, eigenvalue accuracy and the SLQ error estimates are not decided; the ELBO "
+      "rules identify quantities by their local names and report undecided (exit 2, no alarm) if those are renamed.",
+      TRUST, "DESIGN.md section 9.8")
